@@ -118,7 +118,7 @@ def main():
                 continue
             for p in pids:
                 env = dict(os.environ, LV_REPO=wt, LV_REPLAY_DIR='/tmp/lv-mutant-replays', LV_EVIDENCE_DIR='/tmp/lv-mutant-evidence')
-                r = sh('./check %s %s' % (p, tier), cwd='/verif', env=env)
+                r = sh('timeout -k 10 1500 ./check %s %s' % (p, tier), cwd='/verif', env=env)
                 text = r.stdout.decode('utf-8', 'replace')
                 sigs = [l.strip()[len('signature: '):] for l in text.splitlines() if l.strip().startswith('signature:')]
                 verdict = 'detected' if r.returncode == 1 else 'missed' if r.returncode == 0 else 'internal-error'
